@@ -1,4 +1,559 @@
+import EudoxiaModel.Model.Sched.Priority
 import EudoxiaModel.Model.SObs
+/-! # C12 — priority: strict priority order, work conservation, query-only preemption (per-round theorems) -/
 namespace Eudoxia.C12
-theorem placeholder : True := trivial
+open Eudoxia Eudoxia.Prio OpState Extracted
+
+/-- a pool is *open* for the scheduler when its snapshot still shows free CPU and free RAM -/
+def Snap.isOpen (s : Snap) : Prop := 0 < s.availC ∧ 0 < s.availR
+
+theorem go_some (l : List Snap) : ∀ (i b : Nat) (m : Int), bestPool.go i l (some b) m ≠ none := by
+  induction l with
+  | nil => intro i b m; simp [bestPool.go]
+  | cons s rest ih => intro i b m; unfold bestPool.go; split <;> exact ih _ _ _
+
+theorem go_none (l : List Snap) : ∀ (i : Nat), bestPool.go i l none 0 = none ↔ ∀ s ∈ l, ¬ Snap.isOpen s := by
+  induction l with
+  | nil => intro i; simp [bestPool.go]
+  | cons s rest ih =>
+    intro i
+    unfold bestPool.go
+    split
+    · rename_i h
+      simp only [Bool.and_eq_true, decide_eq_true_eq] at h
+      constructor
+      · intro e; exact absurd e (go_some _ _ _ _)
+      · intro hn; exact absurd (⟨h.1, h.2⟩ : Snap.isOpen s) (hn s (by simp))
+    · rename_i h
+      simp only [Bool.and_eq_true, decide_eq_true_eq, not_and] at h
+      rw [ih]
+      constructor
+      · intro hn x hx
+        rcases List.mem_cons.mp hx with rfl | hx
+        · intro ho; exact h ho.1 ho.2
+        · exact hn x hx
+      · intro hn x hx; exact hn x (List.mem_cons_of_mem _ hx)
+
+/-- **work conservation, at the level of the pool choice**: the scheduler finds no pool exactly when every pool has run out of free CPU or of free RAM -/
+theorem bestPool_none_iff (sn : List Snap) : bestPool sn = none ↔ ∀ s ∈ sn, ¬ Snap.isOpen s := go_none sn 0
+
+/-- the chosen pool exists, is open, and has the most free RAM among the pools with a free CPU -/
+theorem go_spec (l : List Snap) : ∀ (i : Nat) (best : Option Nat) (m : Int) (pre : List Snap), pre.length = i → 0 ≤ m →
+    (∀ b, best = some b → b < i ∧ (pre.getD b default).availC > 0 ∧ (pre.getD b default).availR = m ∧ 0 < m) →
+    (∀ s ∈ pre, s.availC > 0 → s.availR ≤ m) →
+    ∀ p, bestPool.go i l best m = some p →
+      p < (pre ++ l).length ∧ Snap.isOpen ((pre ++ l).getD p default) ∧ ∀ s ∈ pre ++ l, s.availC > 0 → s.availR ≤ ((pre ++ l).getD p default).availR := by
+  induction l with
+  | nil =>
+    intro i best m pre hl hm hb hmax p hp
+    simp only [bestPool.go] at hp
+    obtain ⟨h1, h2, h3, h4⟩ := hb p hp
+    simp only [List.append_nil]
+    exact ⟨by omega, ⟨h2, by omega⟩, fun s hs hc => by rw [h3]; exact hmax s hs hc⟩
+  | cons s rest ih =>
+    intro i best m pre hl hm hb hmax p hp
+    unfold bestPool.go at hp
+    have happ : pre ++ s :: rest = (pre ++ [s]) ++ rest := by simp
+    rw [happ]
+    split at hp
+    · rename_i h
+      simp only [Bool.and_eq_true, decide_eq_true_eq] at h
+      refine ih (i + 1) (some i) s.availR (pre ++ [s]) (by simp [hl]) (by omega) ?_ ?_ p hp
+      · intro b hb'
+        cases hb'
+        have : (pre ++ [s]).getD i default = s := by
+          rw [List.getD_eq_getElem?_getD, List.getElem?_append_right (by omega)]; simp [hl]
+        rw [this]
+        exact ⟨by omega, h.1, rfl, by omega⟩
+      · intro x hx hc
+        rcases List.mem_append.mp hx with hx | hx
+        · have := hmax x hx hc; omega
+        · simp at hx; subst hx; omega
+    · rename_i h
+      simp only [Bool.and_eq_true, decide_eq_true_eq, not_and] at h
+      refine ih (i + 1) best m (pre ++ [s]) (by simp [hl]) hm ?_ ?_ p hp
+      · intro b hb'
+        obtain ⟨h1, h2, h3, h4⟩ := hb b hb'
+        have : (pre ++ [s]).getD b default = pre.getD b default := by
+          rw [List.getD_eq_getElem?_getD, List.getD_eq_getElem?_getD, List.getElem?_append_left (by omega)]
+        rw [this]
+        exact ⟨by omega, h2, h3, h4⟩
+      · intro x hx hc
+        rcases List.mem_append.mp hx with hx | hx
+        · exact hmax x hx hc
+        · simp at hx; subst hx; have := h hc; omega
+
+theorem bestPool_spec (sn : List Snap) (p : Nat) (h : bestPool sn = some p) :
+    p < sn.length ∧ Snap.isOpen (sn.getD p default) ∧ ∀ s ∈ sn, s.availC > 0 → s.availR ≤ (sn.getD p default).availR := by
+  have := go_spec sn 0 none 0 [] rfl (by omega) (by simp) (by simp) p h
+  simpa using this
+
+/-- with no open pool a queue run does nothing at all -/
+theorem prQueue_closed (q : Nat) (w : World) (jobs : List Job) (sn : List Snap) (k : Nat) (acc : List Asg)
+    (h : bestPool sn = none) : prQueue q w jobs sn k acc = .ok (w, sn, k, acc) := by
+  cases jobs with
+  | nil => simp [prQueue]
+  | cons j rest => simp [prQueue, h]
+
+/-- **one queue.**  A queue run consumes a prefix of the queue, in order; every assignment it makes is for one consumed job (its operators,
+its priority), on a pool that was open at that moment; the assignments come out in queue (arrival) order; and it stops before the end of the
+queue only when no pool is open any more. -/
+theorem prQueue_spec (q : Nat) : ∀ (jobs : List Job) (w : World) (sn : List Snap) (k : Nat) (acc : List Asg)
+    (w' : World) (sn' : List Snap) (k' : Nat) (out : List Asg),
+    prQueue q w jobs sn k acc = .ok (w', sn', k', out) →
+    ∃ new, out = acc ++ new ∧ k ≤ k' ∧ k' - k ≤ jobs.length ∧
+      (k' - k < jobs.length → bestPool sn' = none) ∧
+      List.Sublist (new.map (fun a => (a.ops, a.prio))) ((jobs.take (k' - k)).map (fun j => (j.ops, j.prio))) := by
+  intro jobs
+  induction jobs with
+  | nil =>
+    intro w sn k acc w' sn' k' out h
+    simp [prQueue] at h
+    obtain ⟨_, _, rfl, rfl⟩ := h
+    exact ⟨[], by simp, by omega, by simp, by simp, by simp⟩
+  | cons job rest ih =>
+    intro w sn k acc w' sn' k' out h
+    unfold prQueue at h
+    split at h
+    · rename_i hb
+      simp at h
+      obtain ⟨_, rfl, rfl, rfl⟩ := h
+      exact ⟨[], by simp, by omega, by simp, fun _ => hb, by simp⟩
+    · rename_i pool hb
+      split at h
+      · obtain ⟨new, h1, h2, h3, h4, h5⟩ := ih _ _ _ _ _ _ _ _ h
+        refine ⟨new, h1, by omega, by simp; omega, fun hlt => h4 (by simp at hlt; omega), ?_⟩
+        have : k' - k = (k' - (k + 1)) + 1 := by omega
+        rw [this, List.take_succ_cons, List.map_cons]
+        exact List.Sublist.cons _ h5
+      · rename_i jc jr hsz
+        split at h
+        · cases h
+        · rename_i w1 a1 hmk
+          obtain ⟨ea, _⟩ := mkA_ok hmk
+          obtain ⟨new, h1, h2, h3, h4, h5⟩ := ih _ _ _ _ _ _ _ _ h
+          refine ⟨a1 :: new, by simp [h1], by omega, by simp; omega, fun hlt => h4 (by simp at hlt; omega), ?_⟩
+          have : k' - k = (k' - (k + 1)) + 1 := by omega
+          rw [this, List.take_succ_cons, List.map_cons, List.map_cons, ea]
+          exact List.Sublist.cons_cons _ h5
+
+/-- every assignment of a queue run goes to a pool that was open when it was chosen, and asks for no more than the snapshot showed free there -/
+theorem prQueue_pools_open (q : Nat) : ∀ (jobs : List Job) (w : World) (sn : List Snap) (k : Nat) (acc : List Asg)
+    (w' : World) (sn' : List Snap) (k' : Nat) (out : List Asg),
+    prQueue q w jobs sn k acc = .ok (w', sn', k', out) → sn'.length = sn.length ∧
+    ∃ new, out = acc ++ new ∧ ∀ a ∈ new, a.pool < sn.length := by
+  intro jobs
+  induction jobs with
+  | nil =>
+    intro w sn k acc w' sn' k' out h
+    simp [prQueue] at h
+    obtain ⟨_, rfl, _, rfl⟩ := h
+    exact ⟨rfl, [], by simp, by simp⟩
+  | cons job rest ih =>
+    intro w sn k acc w' sn' k' out h
+    unfold prQueue at h
+    split at h
+    · simp at h
+      obtain ⟨_, rfl, _, rfl⟩ := h
+      exact ⟨rfl, [], by simp, by simp⟩
+    · rename_i pool hb
+      have hp := (bestPool_spec sn pool hb).1
+      split at h
+      · exact ih _ _ _ _ _ _ _ _ h
+      · split at h
+        · cases h
+        · rename_i w1 a1 hmk
+          obtain ⟨ea, _⟩ := mkA_ok hmk
+          obtain ⟨hl, new, h1, h2⟩ := ih _ _ _ _ _ _ _ _ h
+          simp only [snapSub, List.length_set] at hl h2
+          refine ⟨hl, a1 :: new, by simp [h1], ?_⟩
+          intro a ha
+          rcases List.mem_cons.mp ha with rfl | ha
+          · rw [ea]; exact hp
+          · exact h2 a ha
+
+
+/-! ### the round -/
+
+/-- **strict priority and work conservation, per round.**  With `stq` the queues as the round's main loop sees them, a round of the priority
+scheduler (a) consumes a prefix of each queue and assigns in queue order (so equal-priority work is served in arrival order);
+(b) if a query job is left waiting nothing of a lower priority was assigned, and if an interactive job is left waiting no batch work was assigned;
+(c) if any job is left waiting in any queue, every pool has run out of free CPU or of free RAM in the scheduler's accounting. -/
+theorem round_order_and_conservation (w w' : World) (st st' : St) (res : List Res) (newP : List Nat) (dec : Decision)
+    (h : prRound w st res newP = .ok (w', st', dec))
+    (stq : St) (hstq : stq = prRequeueSuspended w (prNoteSuspending w (prEnqueue w st res newP))) :
+    ∃ (k1 k2 k3 : Nat) (a1 a2 a3 : List Asg) (snEnd : List Snap),
+      dec.asgs = a1 ++ a2 ++ a3 ∧
+      st'.qry = stq.qry.drop k1 ∧ st'.inter = stq.inter.drop k2 ∧ st'.batch = stq.batch.drop k3 ∧
+      List.Sublist (a1.map (fun a => (a.ops, a.prio))) ((stq.qry.take k1).map (fun j => (j.ops, j.prio))) ∧
+      List.Sublist (a2.map (fun a => (a.ops, a.prio))) ((stq.inter.take k2).map (fun j => (j.ops, j.prio))) ∧
+      List.Sublist (a3.map (fun a => (a.ops, a.prio))) ((stq.batch.take k3).map (fun j => (j.ops, j.prio))) ∧
+      (st'.qry ≠ [] → a2 = [] ∧ a3 = []) ∧ (st'.inter ≠ [] → a3 = []) ∧
+      ((st'.qry ≠ [] ∨ st'.inter ≠ [] ∨ st'.batch ≠ []) → ∀ s ∈ snEnd, ¬ Snap.isOpen s) := by
+  unfold prRound at h
+  simp only at h
+  rw [← hstq] at h
+  split at h
+  · cases h
+  · rename_i w1 sa1 k1 a1 hq1
+    split at h
+    · cases h
+    · rename_i w2 sa2 k2 a2 hq2
+      split at h
+      · cases h
+      · rename_i w3 sa3 k3 a3 hq3
+        simp only [Except.ok.injEq, Prod.mk.injEq] at h
+        obtain ⟨_, hst, hdec⟩ := h
+        obtain ⟨n1, e1, _, l1, c1, s1⟩ := prQueue_spec _ _ _ _ _ _ _ _ _ _ hq1
+        simp only [List.nil_append, Nat.sub_zero] at e1 l1 c1 s1
+        subst e1
+        have hsus : ∀ (l : List (Nat × Nat)) (s0 : St), (l.foldl (fun (s : St) (x : Nat × Nat) =>
+            match findCtr (w.pools.getD x.1 default).active x.2 with
+            | some c => { s with susp := dictSet s.susp c.cid (jobOfCtr w3 x.1 c) }
+            | none => s) s0).qry = s0.qry ∧ (l.foldl (fun (s : St) (x : Nat × Nat) =>
+            match findCtr (w.pools.getD x.1 default).active x.2 with
+            | some c => { s with susp := dictSet s.susp c.cid (jobOfCtr w3 x.1 c) }
+            | none => s) s0).inter = s0.inter ∧ (l.foldl (fun (s : St) (x : Nat × Nat) =>
+            match findCtr (w.pools.getD x.1 default).active x.2 with
+            | some c => { s with susp := dictSet s.susp c.cid (jobOfCtr w3 x.1 c) }
+            | none => s) s0).batch = s0.batch := by
+          intro l
+          induction l with
+          | nil => intro s0; simp
+          | cons x xs ih =>
+            intro s0
+            simp only [List.foldl_cons]
+            split
+            · exact ih _
+            · exact ih _
+        have hq := (hsus _ _).1.symm.trans (congrArg St.qry hst) |>.symm
+        have hi := (hsus _ _).2.1.symm.trans (congrArg St.inter hst) |>.symm
+        have hb := (hsus _ _).2.2.symm.trans (congrArg St.batch hst) |>.symm
+        simp only at hq hi hb
+        -- case split on whether the query queue was drained
+        by_cases hd1 : k1 < stq.qry.length
+        · have hc1 := c1 hd1
+          rw [prQueue_closed _ _ _ _ _ _ hc1] at hq2
+          simp only [Except.ok.injEq, Prod.mk.injEq] at hq2
+          obtain ⟨rfl, rfl, rfl, rfl⟩ := hq2
+          rw [prQueue_closed _ _ _ _ _ _ hc1] at hq3
+          simp only [Except.ok.injEq, Prod.mk.injEq] at hq3
+          obtain ⟨rfl, rfl, rfl, rfl⟩ := hq3
+          refine ⟨k1, 0, 0, a1, [], [], sa1, by rw [← hdec], hq, hi, hb, s1, by simp, by simp, fun _ => ⟨rfl, rfl⟩, fun _ => rfl, ?_⟩
+          intro _
+          exact (bestPool_none_iff sa1).mp hc1
+        · obtain ⟨n2, e2, _, l2, c2, s2⟩ := prQueue_spec _ _ _ _ _ _ _ _ _ _ hq2
+          simp only [List.nil_append, Nat.sub_zero] at e2 l2 c2 s2
+          subst e2
+          have hq' : st'.qry = [] := by rw [hq]; exact List.drop_eq_nil_of_le (by omega)
+          by_cases hd2 : k2 < stq.inter.length
+          · have hc2 := c2 hd2
+            rw [prQueue_closed _ _ _ _ _ _ hc2] at hq3
+            simp only [Except.ok.injEq, Prod.mk.injEq] at hq3
+            obtain ⟨rfl, rfl, rfl, rfl⟩ := hq3
+            refine ⟨k1, k2, 0, a1, a2, [], sa2, by rw [← hdec], hq, hi, hb, s1, s2, by simp, fun hne => absurd hq' hne, fun _ => rfl, ?_⟩
+            intro _
+            exact (bestPool_none_iff sa2).mp hc2
+          · obtain ⟨n3, e3, _, l3, c3, s3⟩ := prQueue_spec _ _ _ _ _ _ _ _ _ _ hq3
+            simp only [List.nil_append, Nat.sub_zero] at e3 l3 c3 s3
+            subst e3
+            have hi' : st'.inter = [] := by rw [hi]; exact List.drop_eq_nil_of_le (by omega)
+            refine ⟨k1, k2, k3, a1, a2, a3, sa3, by rw [← hdec], hq, hi, hb, s1, s2, s3, fun hne => absurd hq' hne, fun hne => absurd hi' hne, ?_⟩
+            intro hw
+            have : st'.batch ≠ [] := by
+              rcases hw with hw | hw | hw
+              · exact absurd hq' hw
+              · exact absurd hi' hw
+              · exact hw
+            have hd3 : k3 < stq.batch.length := by
+              rw [hb] at this
+              apply Decidable.byContradiction
+              intro hge
+              exact this (List.drop_eq_nil_of_le (by omega))
+            exact (bestPool_none_iff sa3).mp (c3 hd3)
+
+
+/-! ### preemption -/
+
+theorem dropWhile_head_false {α} (p : α → Bool) : ∀ (l : List α) (c : α) (more : List α), l.dropWhile p = c :: more → p c = false ∧ (c :: more) <:+ l := by
+  intro l
+  induction l with
+  | nil => intro c more h; simp at h
+  | cons x xs ih =>
+    intro c more h
+    rw [List.dropWhile_cons] at h
+    split at h
+    · obtain ⟨h1, h2⟩ := ih c more h
+      exact ⟨h1, List.IsSuffix.trans h2 (List.suffix_cons _ _)⟩
+    · rename_i hx
+      cases h
+      exact ⟨by simpa using hx, List.suffix_refl _⟩
+
+theorem getD_set_suffix (iters pools : List (List Ctr)) (pid : Nat) (more : List Ctr)
+    (h : ∀ i, iters.getD i [] <:+ pools.getD i []) (hm : more <:+ iters.getD pid []) :
+    ∀ i, (iters.set pid more).getD i [] <:+ pools.getD i [] := by
+  intro i
+  rw [List.getD_eq_getElem?_getD, List.getElem?_set]
+  split
+  · rename_i e
+    subst e
+    split
+    · exact List.IsSuffix.trans hm (h pid)
+    · simp
+  · rw [← List.getD_eq_getElem?_getD]; exact h i
+
+/-- what a preemption request may name -/
+def Preemptible (pools : List (List Ctr)) (x : Nat × Nat) : Prop :=
+  ∃ c ∈ pools.getD x.1 [], c.cid = x.2 ∧ c.prio ≠ prioQuery ∧ c.canSuspend = true
+
+theorem prSuspend_go_spec (pools : List (List Ctr)) (need n : Nat) : ∀ (fuel : Nat) (iters : List (List Ctr)) (exh : List Bool) (pid cnt : Nat)
+    (acc : List (Nat × Nat)), (∀ i, iters.getD i [] <:+ pools.getD i []) → (∀ x ∈ acc, Preemptible pools x) → acc.length = cnt → cnt ≤ need →
+    (∀ x ∈ prSuspend.go need n fuel iters exh pid cnt acc, Preemptible pools x) ∧ (prSuspend.go need n fuel iters exh pid cnt acc).length ≤ need := by
+  intro fuel
+  induction fuel with
+  | zero => intro iters exh pid cnt acc _ h2 h3 h4; simp only [prSuspend.go]; exact ⟨h2, by omega⟩
+  | succ fuel ih =>
+    intro iters exh pid cnt acc h1 h2 h3 h4
+    unfold prSuspend.go
+    split
+    · exact ⟨h2, by omega⟩
+    · split
+      · exact ⟨h2, by omega⟩
+      · simp only
+        split
+        · exact ih _ _ _ _ _ (getD_set_suffix _ _ _ _ h1 (List.nil_suffix)) h2 h3 h4
+        · rename_i c more hdw
+          obtain ⟨hq, hsuf⟩ := dropWhile_head_false _ _ _ _ hdw
+          have hmore : more <:+ iters.getD pid [] := List.IsSuffix.trans (List.suffix_cons c more) hsuf
+          have hmem : c ∈ pools.getD pid [] := (h1 pid).subset (hsuf.subset (by simp))
+          split
+          · rename_i hcs
+            refine ih _ _ _ _ _ (getD_set_suffix _ _ _ _ h1 hmore) ?_ (by simp [h3]) (by omega)
+            intro x hx
+            rcases List.mem_append.mp hx with hx | hx
+            · exact h2 x hx
+            · simp at hx; subst hx
+              exact ⟨c, hmem, rfl, by simpa using hq, hcs⟩
+          · exact ih _ _ _ _ _ (getD_set_suffix _ _ _ _ h1 hmore) h2 h3 h4
+
+/-- **query-only preemption: what may be suspended.**  The scan asks for at most `need` suspensions, and each names a container of the pool's
+active list that is not a query container and can be suspended (it sits at an operator boundary). -/
+theorem prSuspend_spec (pools : List (List Ctr)) (need : Nat) :
+    (∀ x ∈ prSuspend pools need, Preemptible pools x) ∧ (prSuspend pools need).length ≤ need := by
+  unfold prSuspend
+  simp only
+  split
+  · simp
+  · exact prSuspend_go_spec pools need pools.length _ pools _ 0 0 [] (fun i => List.suffix_refl _) (by simp) rfl (by omega)
+
+/-- **query-only preemption, per round**: the priority scheduler suspends only while a query job is still waiting after the round's assignments,
+at most one container per waiting query job, and only active non-query containers at an operator boundary. -/
+theorem round_preemption (w w' : World) (st st' : St) (res : List Res) (newP : List Nat) (dec : Decision)
+    (h : prRound w st res newP = .ok (w', st', dec)) :
+    (dec.sus ≠ [] → st'.qry ≠ []) ∧ dec.sus.length ≤ st'.qry.length ∧
+    ∀ x ∈ dec.sus, ∃ c ∈ (w.pools.getD x.1 default).active, c.cid = x.2 ∧ c.prio ≠ prioQuery ∧ c.canSuspend = true := by
+  unfold prRound at h
+  simp only at h
+  split at h
+  · cases h
+  · split at h
+    · cases h
+    · split at h
+      · cases h
+      · rename_i k1 _ _ _ _ _ k2 _ _ _ _ _ k3 _ _
+        simp only [Except.ok.injEq, Prod.mk.injEq] at h
+        obtain ⟨_, hst, hdec⟩ := h
+        have hsus : ∀ (f : St → Nat × Nat → St), (∀ s x, (f s x).qry = s.qry) → ∀ (l : List (Nat × Nat)) (s0 : St), (l.foldl f s0).qry = s0.qry := by
+          intro f hf l
+          induction l with
+          | nil => intro s0; rfl
+          | cons x xs ih => intro s0; simp only [List.foldl_cons]; rw [ih, hf]
+        have hq : st'.qry = (prRequeueSuspended w (prNoteSuspending w (prEnqueue w st res newP))).qry.drop k1 := by
+          rw [← hst]
+          rw [hsus]
+          intro s x
+          split <;> rfl
+        rw [← hdec]
+        simp only
+        rw [hq]
+        split
+        · simp
+        · rename_i hne
+          have hne' : List.drop k1 (prRequeueSuspended w (prNoteSuspending w (prEnqueue w st res newP))).qry ≠ [] := by
+            intro e; rw [e] at hne; simp at hne
+          obtain ⟨hp, hl⟩ := prSuspend_spec (w.pools.map (·.active)) (List.drop k1 (prRequeueSuspended w (prNoteSuspending w (prEnqueue w st res newP))).qry).length
+          refine ⟨fun _ => hne', hl, ?_⟩
+          intro x hx
+          obtain ⟨c, hc, e1, e2, e3⟩ := hp x hx
+          refine ⟨c, ?_, e1, e2, e3⟩
+          rw [List.getD_eq_getElem?_getD, List.getElem?_map] at hc
+          rw [List.getD_eq_getElem?_getD]
+          cases hgx : w.pools[x.1]? with
+          | none => rw [hgx] at hc; simp at hc
+          | some pl => rw [hgx] at hc; simpa using hc
+
+
+/-! ### suspended work is offered again -/
+
+def _root_.Eudoxia.Prio.St.has (s : St) (j : Job) : Prop := j ∈ s.qry ∨ j ∈ s.inter ∨ j ∈ s.batch
+
+theorem push_has (s : St) (j : Job) (p : Nat) : (s.push j p).has j := by
+  unfold St.push St.has
+  split
+  · left; simp
+  · split
+    · right; left; simp
+    · right; right; simp
+
+theorem push_mono (s : St) (j j' : Job) (p : Nat) (h : s.has j') : (s.push j p).has j' := by
+  unfold St.push St.has at *
+  split
+  · rcases h with h | h | h
+    · left; simp [h]
+    · right; left; exact h
+    · right; right; exact h
+  · split
+    · rcases h with h | h | h
+      · left; exact h
+      · right; left; simp [h]
+      · right; right; exact h
+    · rcases h with h | h | h
+      · left; exact h
+      · right; left; exact h
+      · right; right; simp [h]
+
+theorem push_susp (s : St) (j : Job) (p : Nat) : (s.push j p).susp = s.susp := by
+  unfold St.push; split; rfl; split <;> rfl
+
+/-- one step of the re-queue loop -/
+def requeueStep (st : St) (c : Ctr) : St :=
+  match st.susp.find? (·.1 == c.cid) with
+  | some (_, job) => ({ st with susp := st.susp.filter (·.1 != c.cid) }).push job job.prio
+  | none => st
+
+theorem find_filter_ne (l : List (Nat × Job)) (a b : Nat) (h : a ≠ b) :
+    (l.filter (·.1 != b)).find? (·.1 == a) = l.find? (·.1 == a) := by
+  induction l with
+  | nil => rfl
+  | cons x xs ih =>
+    by_cases hx : x.1 = b
+    · have hxa : (x.1 == a) = false := by rw [hx]; simpa using fun e => h e.symm
+      rw [List.filter_cons, List.find?_cons, hxa]
+      simp [hx, ih]
+    · rw [List.filter_cons]
+      have : (x.1 != b) = true := by simpa using hx
+      rw [this]
+      simp only [↓reduceIte, List.find?_cons, ih]
+
+theorem St.has_of_qry {s t : St} {j : Job} (h : s.has j) (e1 : t.qry = s.qry) (e2 : t.inter = s.inter) (e3 : t.batch = s.batch) : t.has j := by
+  unfold St.has at *; rw [e1, e2, e3]; exact h
+
+theorem requeueStep_mono (job : Job) (st : St) (c : Ctr) (h : st.has job) : (requeueStep st c).has job := by
+  unfold requeueStep
+  split
+  · exact push_mono _ _ _ _ (St.has_of_qry h rfl rfl rfl)
+  · exact h
+
+theorem requeue_list_mono (job : Job) : ∀ (l : List Ctr) (st : St), st.has job → (l.foldl requeueStep st).has job := by
+  intro l
+  induction l with
+  | nil => intro st h; exact h
+  | cons x xs ih => intro st h; exact ih _ (requeueStep_mono job st x h)
+
+/-- the invariant carried through the loop for a remembered job: it is already queued, or it is still remembered under its container -/
+def Pending (cid : Nat) (job : Job) (st : St) : Prop := st.has job ∨ ∃ k, st.susp.find? (·.1 == cid) = some (k, job)
+
+theorem requeueStep_pending (cid : Nat) (job : Job) (st : St) (c : Ctr) (h : Pending cid job st) : Pending cid job (requeueStep st c) := by
+  rcases h with h | ⟨k, h⟩
+  · exact Or.inl (requeueStep_mono job st c h)
+  · by_cases hc : c.cid = cid
+    · unfold requeueStep
+      rw [hc, h]
+      exact Or.inl (push_has _ _ _)
+    · unfold requeueStep
+      split
+      · right
+        refine ⟨k, ?_⟩
+        rw [push_susp]
+        simp only
+        rw [find_filter_ne _ _ _ (fun e => hc e.symm)]
+        exact h
+      · exact Or.inr ⟨k, h⟩
+
+theorem requeueStep_hit (cid : Nat) (job : Job) (st : St) (c : Ctr) (hc : c.cid = cid) (h : Pending cid job st) : (requeueStep st c).has job := by
+  rcases h with h | ⟨k, h⟩
+  · exact requeueStep_mono job st c h
+  · unfold requeueStep; rw [hc, h]; exact push_has _ _ _
+
+theorem requeue_list (cid : Nat) (job : Job) : ∀ (l : List Ctr) (st : St), Pending cid job st →
+    Pending cid job (l.foldl requeueStep st) ∧ ((∃ c ∈ l, c.cid = cid) → (l.foldl requeueStep st).has job) := by
+  intro l
+  induction l with
+  | nil => intro st h; exact ⟨h, by simp⟩
+  | cons x xs ih =>
+    intro st h
+    simp only [List.foldl_cons]
+    obtain ⟨i1, i2⟩ := ih _ (requeueStep_pending cid job st x h)
+    refine ⟨i1, ?_⟩
+    rintro ⟨c, hc, e⟩
+    rcases List.mem_cons.mp hc with rfl | hc
+    · exact requeue_list_mono job _ _ (requeueStep_hit cid job st c e h)
+    · exact i2 ⟨c, hc, e⟩
+
+theorem prRequeueSuspended_eq (w : World) (st : St) :
+    prRequeueSuspended w st = (List.range w.pools.length).foldl (fun st k => (w.pools.getD k default).suspended.foldl requeueStep st) st := rfl
+
+/-- **suspended work is offered again.**  If, when a round starts, a container sits in some pool's suspended list and the scheduler has a job
+remembered under that container, the re-queue step puts exactly that job back into one of the waiting queues (from where the main loop of the same
+round serves it in priority order). -/
+theorem suspended_work_is_requeued (w : World) (st : St) (k : Nat) (c : Ctr) (key : Nat) (job : Job)
+    (hk : k < w.pools.length) (hc : c ∈ (w.pools.getD k default).suspended)
+    (hj : st.susp.find? (·.1 == c.cid) = some (key, job)) :
+    (prRequeueSuspended w st).has job := by
+  rw [prRequeueSuspended_eq]
+  have stay : ∀ (ks : List Nat) (s : St), s.has job → (ks.foldl (fun st k => (w.pools.getD k default).suspended.foldl requeueStep st) s).has job := by
+    intro ks
+    induction ks with
+    | nil => intro s hs; exact hs
+    | cons y ys ihy => intro s hs; exact ihy _ (requeue_list_mono job _ _ hs)
+  have gen : ∀ (ks : List Nat) (s : St), Pending c.cid job s →
+      Pending c.cid job (ks.foldl (fun st k => (w.pools.getD k default).suspended.foldl requeueStep st) s) ∧
+      (k ∈ ks → (ks.foldl (fun st k => (w.pools.getD k default).suspended.foldl requeueStep st) s).has job) := by
+    intro ks
+    induction ks with
+    | nil => intro s h; exact ⟨h, by simp⟩
+    | cons x xs ih =>
+      intro s h
+      simp only [List.foldl_cons]
+      obtain ⟨p1, p2⟩ := requeue_list c.cid job (w.pools.getD x default).suspended s h
+      obtain ⟨i1, i2⟩ := ih _ p1
+      refine ⟨i1, ?_⟩
+      intro hm
+      rcases List.mem_cons.mp hm with rfl | hm
+      · exact stay _ _ (p2 ⟨c, hc, rfl⟩)
+      · exact i2 hm
+  exact (gen _ st (Or.inr ⟨key, hj⟩)).2 (List.mem_range.mpr hk)
+
+/-- the job remembered when a suspension is requested (or seen in progress) is found again under the container's number -/
+theorem dictSet_find (d : List (Nat × Job)) (k : Nat) (j : Job) : (dictSet d k j).find? (·.1 == k) = some (k, j) := by
+  unfold dictSet
+  split
+  · rename_i h
+    induction d with
+    | nil => simp at h
+    | cons x xs ih =>
+      by_cases hx : x.1 = k
+      · simp [List.find?_cons, hx]
+      · have hx' : (x.1 == k) = false := by simpa using hx
+        simp only [List.map_cons, hx', Bool.false_eq_true, ↓reduceIte, List.find?_cons]
+        apply ih
+        simpa [hx'] using h
+  · rename_i h
+    rw [List.find?_append]
+    have : d.find? (·.1 == k) = none := by
+      rw [List.find?_eq_none]
+      intro x hx hk
+      exact h (List.any_eq_true.mpr ⟨x, hx, hk⟩)
+    simp [this]
+
 end Eudoxia.C12
